@@ -17,10 +17,6 @@ var boundsTable = map[string]tabEntry{
 		"the list was padded to Index+1 three statements earlier; points that reach this branch satisfy isListElement, so Extract parsed a non-negative index written by FindInsertionPoints from a range index"},
 	"executor.FindInsertionPoints/‹[][]string›[‹int›][‹int›]": {4,
 		"every branch of oldBranch was extended to length pointI+1 by `oldBranch[i] = append(points, point)` immediately above; i ranges over oldBranch"},
-	"executor.mergeOrRewriteMap/‹[]interface{}›[‹int›]": {1,
-		"both call sites (mergeSlices) pass rIdx under `rIdx < len(lSlice)`; rIdx is a range index"},
-	"executor.mergeSlices/‹[]interface{}›[‹int›]": {1,
-		"guarded by leftEntityPosition >= 0; getLeftEntityPosition returns -1 or an index it just visited in the same slice"},
 	"executor.copy2DStringArray/‹[][]string›[‹int›][‹int›]": {1,
 		"res[i] was made with len(p) in the enclosing iteration and j ranges over p"},
 	"pebbles.(Results).Emit/‹pebbles.Results›[0]": {1,
@@ -42,8 +38,8 @@ var boundsTable = map[string]tabEntry{
 }
 
 var assertTable = map[string]tabEntry{
-	"executor.mergeSlices/.(map[string]interface{}) on interface{}": {1,
-		"getLeftEntityPosition returned this position only after asserting the same element to map[string]interface{}"},
+	// (empty: the one unchecked assertion of the request path, the element getLeftEntityPosition
+	// found, is discharged by computation — R7.P2 searchedElementAssert)
 }
 
 var panicTable = map[string]tabEntry{
